@@ -360,7 +360,7 @@ theorem normAction_renderAction (a : ActionD) (hv : validAction a = true) (hu : 
   | setContactField u n k t v =>
     simp only [untypedAction, Option.isNone_iff_eq_none] at hu
     subst hu
-    rfl
+    cases hb : fieldTypeBug <;> simp [renderAction, normAction, hb]
   | removeGroups u gs ag =>
     simp only [renderAction, normAction, List.map_map]
     rw [show Option.filter truthy ag = dropFalsy ag from rfl, dropFalsy_idem]
